@@ -7,7 +7,7 @@ From Coq Require Import String Ascii.
 From Coq Require Import ZArith List Bool.
 From V Require Import base.Cal posix.PTime posix.RDelta posix.TzParseModel posix.TzRangeModel
      posix.PosixSpec posix.TransThm posix.MainThm posix.PosixThm posix.IcalModel posix.IcalThm
-     posix.IcalEquiv posix.IcalParseThm posix.WallThm posix.IcalWall posix.IcalUtc posix.IcalConcModel posix.IcalConcThm.
+     posix.IcalEquiv posix.IcalParseThm posix.WallThm posix.IcalWall posix.IcalUtc posix.IcalConcModel posix.IcalConcThm posix.IcalRoundThm.
 Import ListNotations.
 Open Scope Z_scope.
 
@@ -112,6 +112,24 @@ Theorem C17_read_outside_lock_refuted :
     In (q, a) th.(t_out) /\ a <> expected conc_comps q.
 Proof. exact read_outside_lock_refuted. Qed.
 Print Assumptions C17_read_outside_lock_refuted.
+
+(* the VTIMEZONE line parser on a well-formed definition (IcalRoundThm.v: vtz_lines = BEGIN:VTIMEZONE,
+   TZID, a DAYLIGHT and a STANDARD block each with DTSTART, RRULE, TZOFFSETFROM, TZOFFSETTO, TZNAME,
+   END:VTIMEZONE): for ALL TZIDs, names, DTSTART / RRULE values and offsets below 100 h (hhmm, or
+   hhmmss when seconds are present) the state machine delivers exactly the two component records
+   the text states, with the recurrence lines it collected for rrulestr *)
+Theorem C17_parse_rfc_vtimezone : forall tzid n1 n2 v1 v2 v3 v4 a b,
+  tzid <> [] -> -360000 < a < 360000 -> -360000 < b < 360000 ->
+  parse_rfc (vtz_lines tzid n1 n2 v1 v2 v3 v4 a b) =
+    Ok [(tzid, [mkPcomp a b true (Some n1) [zs "DTSTART:" ++ v1; zs "RRULE:" ++ v2];
+                mkPcomp b a false (Some n2) [zs "DTSTART:" ++ v3; zs "RRULE:" ++ v4]])].
+Proof. exact parse_rfc_vtimezone. Qed.
+Print Assumptions C17_parse_rfc_vtimezone.
+
+Theorem C17_parse_offset_render : forall o,
+  -360000 < o < 360000 -> parse_offset (render_ioff o) = Ok o.
+Proof. exact parse_offset_render. Qed.
+Print Assumptions C17_parse_offset_render.
 
 (* malformed definitions raise ValueError: in every parser state ... *)
 Theorem C17_malformed_missing_tzid : forall st,
